@@ -167,6 +167,7 @@ type inst struct {
 	fname    string
 	needMcrt bool
 	keepUse  map[string]string // package name -> a member to reference so that the import stays used
+	sharedVars map[*types.Var]bool // variables declared outside a goroutine body and written (or address-taken) inside one
 	tmp      int
 }
 
@@ -275,6 +276,10 @@ func (in *inst) run() {
 		}
 		return true
 	})
+	in.sharedVars = map[*types.Var]bool{}
+	for fl := range goLits {
+		in.collectWritten(fl)
+	}
 	for fl := range goLits {
 		in.addYields(fl.Body, fl, false)
 	}
@@ -528,6 +533,79 @@ func (in *inst) yieldsInside(s ast.Stmt, lit *ast.FuncLit, all bool) {
 	}
 }
 
+// rootVar returns the variable at the root of an lvalue expression (v, v.f, v[i], *v, ...).
+func (in *inst) rootVar(e ast.Expr) *types.Var {
+	for {
+		switch x := e.(type) {
+		case *ast.Ident:
+			v, _ := in.info.ObjectOf(x).(*types.Var)
+			return v
+		case *ast.SelectorExpr:
+			if _, isPkg := in.info.Uses[identOf(x.X)].(*types.PkgName); isPkg {
+				v, _ := in.info.ObjectOf(x.Sel).(*types.Var)
+				return v
+			}
+			e = x.X
+		case *ast.IndexExpr:
+			e = x.X
+		case *ast.StarExpr:
+			e = x.X
+		case *ast.ParenExpr:
+			e = x.X
+		case *ast.SliceExpr:
+			e = x.X
+		default:
+			return nil
+		}
+	}
+}
+
+func identOf(e ast.Expr) *ast.Ident {
+	id, _ := e.(*ast.Ident)
+	return id
+}
+
+// collectWritten records the variables declared outside lit that are assigned,
+// incremented or address-taken inside it: the shared mutable state of the goroutine.
+func (in *inst) collectWritten(lit *ast.FuncLit) {
+	outer := func(v *types.Var) bool {
+		return v != nil && !v.IsField() && (v.Pos() < lit.Pos() || v.Pos() > lit.End())
+	}
+	ast.Inspect(lit.Body, func(n ast.Node) bool {
+		switch x := n.(type) {
+		case *ast.AssignStmt:
+			if x.Tok != token.DEFINE {
+				for _, l := range x.Lhs {
+					if v := in.rootVar(l); outer(v) {
+						in.sharedVars[v] = true
+					}
+				}
+			}
+		case *ast.IncDecStmt:
+			if v := in.rootVar(x.X); outer(v) {
+				in.sharedVars[v] = true
+			}
+		case *ast.UnaryExpr:
+			if x.Op == token.AND {
+				if v := in.rootVar(x.X); outer(v) {
+					in.sharedVars[v] = true
+				}
+			}
+		case *ast.RangeStmt:
+			if x.Tok == token.ASSIGN {
+				for _, l := range []ast.Expr{x.Key, x.Value} {
+					if l != nil {
+						if v := in.rootVar(l); outer(v) {
+							in.sharedVars[v] = true
+						}
+					}
+				}
+			}
+		}
+		return true
+	})
+}
+
 // mentionsOuter: does the statement (its own header expressions, not nested
 // blocks) use a variable declared outside lit?
 func (in *inst) mentionsOuter(s ast.Stmt, lit *ast.FuncLit) bool {
@@ -547,7 +625,7 @@ func (in *inst) mentionsOuter(s ast.Stmt, lit *ast.FuncLit) bool {
 				return false
 			case *ast.Ident:
 				if v, ok := in.info.Uses[x].(*types.Var); ok && !v.IsField() {
-					if lit == nil || v.Pos() < lit.Pos() || v.Pos() > lit.End() {
+					if lit == nil || in.sharedVars[v] {
 						found = true
 					}
 				}
